@@ -35,8 +35,8 @@ CLAIMED = {
              note="Trusted: R2 (level-aware hasher, anchored to real Merkle cells), R3 parser, R4 dictionary codec (label decoding).",
              design="DESIGN.md section 4 C18"),
  "C09": dict(technique="property-based testing of a program generator: random schemas -> tongo's schema compiler -> compiled scratch module -> differential check of every generated type against an independent TL reference codec; determinism by running the generator twice",
-             text="Random TL schemas over the supported subset (conditional fields on every bit 0..31, vectors of builtin and declared types, bare and boxed references, unions of 2..5 constructors, functions) are compiled by tongo's tl/parser; the output must be deterministic, compile and vet; inside the compiled binary every generated type and function is exercised with generated values against the reference TL codec (bytes, decode, request decoder table, client method framing). TL half complete; the TL-B half (tlb/parser) is under construction in this revision. Sampling; batches bounded by compile time.",
-             note="Trusted: harness/internal/tlref (R5), tlbind, tlrun; the go toolchain at run time. Subset limits listed in harness/c09/RULE.txt.",
+             text="Random TL schemas over the supported subset (conditional fields on every bit 0..31, vectors of builtin and declared types, bare and boxed references, unions of 2..5 constructors, functions) are compiled by tongo's tl/parser; the output must be deterministic, compile and vet; inside the compiled binary every generated type and function is exercised with generated values against the reference TL codec (bytes, decode, request decoder table, client method framing). For TL-B, random declarations over the constructs of abi/schemas (uintN/intN/bitsN, ## n, #, Bool, Coins, MsgAddress, VarUInteger n, Cell, Maybe, Maybe ^, Either T ^T, Either A B, ^T, ^[...], HashmapE n T, tagged unions with # and $ tags) are compiled by tlb/parser (deterministic, compiles, vets) and every generated struct is driven through tlb.Marshal/Unmarshal against an independent bit-exact reference writer (dictionaries compared by decoded key/value sets). Sampling; batches bounded by compile time.",
+             note="Trusted: harness/internal/tlref (R5), tlbind, tlrun, tlbrun (own TL-B subset parser and reference writer); the go toolchain at run time. Subset limits listed in harness/c09/RULE.txt.",
              design="DESIGN.md section 4 C09"),
  "C10": dict(technique="property-based testing: differential comparison of every lite-server binding type with an independent TL reference codec driven by the checked-in schema; exhaustive byte-length sweep; generator-vs-artifact regeneration check",
              text="The reference codec parses the checked-in lite_api.tl at run time; for every declaration and function, generated values (all mode-bit subsets, byte strings of every length 0..1100 and around 2^16/2^24, vectors, nested unions) must marshal to exactly the reference bytes and unmarshal from them, requests must carry the schema's function id and be recognised by the request decoder; hand-written TL types are covered; liteclient/generated.go and tlb/integers.go must equal what the repository's generators produce (modulo gofmt). Sampling plus exhaustive length sweep.",
